@@ -94,7 +94,7 @@ type Ctl struct {
 	Lenient bool
 }
 
-func (c *Ctl) Kind() string           { return "ctl" }
+func (c *Ctl) Kind() string { return "ctl" }
 func (c *Ctl) Caps() schema.Caps {
 	cp := schema.FullCaps()
 	cp.KeyTypes = []string{"int64", "uint8", "enum", "decimal64"}
